@@ -307,3 +307,206 @@ func genWire(p *pkg, out string) {
 		"Lemma sync_wire_progs : g_wire_progs = wire_progs.\nProof. vm_compute. reflexivity. Qed.\n"
 	os.WriteFile(filepath.Join(out, "SyncWire.v"), []byte(lems), 0o644)
 }
+
+// ---------------------------------------------------------------- decoders
+
+type wireDecTr struct {
+	p        *pkg
+	recv     string
+	constVal func(ast.Expr) (string, bool)
+}
+
+func (t *wireDecTr) sq(n ast.Node) string { return squash(t.p.src(n)) }
+
+func (t *wireDecTr) unknown(n ast.Node) string {
+	return fmt.Sprintf("D_unknown %q", t.sq(n))
+}
+
+func (t *wireDecTr) block(list []ast.Stmt) string {
+	var out []string
+	for _, s := range list {
+		out = append(out, t.stmt(s))
+	}
+	return "[" + strings.Join(out, "; ") + "]"
+}
+
+var decErrClass = map[string]string{
+	`returnunmarshalErr(v,"","missingdata")`:  "EMissingData",
+	`returnunmarshalErr(v,"","sizeexceeded")`: "ESizeExceeded",
+	`returnfmt.Errorf("malformedbool")`:       "EMalformedBool",
+}
+
+func (t *wireDecTr) cond(e ast.Expr) (string, bool) {
+	switch t.sq(e) {
+	case "len(data)==0":
+		return "DC_len_0", true
+	case "len(data)<int(length)+2":
+		return "DC_len_lt_length2", true
+	case "length==0":
+		return "DC_length_0", true
+	case "encodedByte&128==0":
+		return "DC_eb_hi0", true
+	}
+	if b, ok := e.(*ast.BinaryExpr); ok {
+		if b.Op == token.LSS && t.sq(b.X) == "len(data)" {
+			if l, ok := b.Y.(*ast.BasicLit); ok && l.Kind == token.INT && len(l.Value) <= 2 {
+				return "(DC_len_lt " + l.Value + ")", true
+			}
+		}
+		if b.Op == token.GTR && t.sq(b.X) == "multiplier" {
+			if c, ok := t.constVal(b.Y); ok {
+				return "(DC_mult_gt " + c + "%N)", true
+			}
+		}
+	}
+	return "", false
+}
+
+func (t *wireDecTr) stmt(s ast.Stmt) string {
+	src := t.sq(s)
+	if cls, ok := decErrClass[src]; ok {
+		return "D_ret_err " + cls
+	}
+	switch src {
+	case "returnnil":
+		return "D_ret_nil"
+	case "*v=wuint16(binary.BigEndian.Uint16(data))":
+		if t.recv == "wuint16" {
+			return "D_set_be16"
+		}
+	case "*v=wuint32(binary.BigEndian.Uint32(data))":
+		if t.recv == "wuint32" {
+			return "D_set_be32"
+		}
+	case "*v=" + t.recv + "(data[0])":
+		return "D_set_data0"
+	case "*v=wbool(false)":
+		return "D_set_bool false"
+	case "*v=wbool(true)":
+		return "D_set_bool true"
+	case "varlengthwuint16":
+		return "D_var_length"
+	case "_=length.UnmarshalBinary(data)":
+		return "D_length_decode"
+	case "*v=make([]byte,length)":
+		return "D_make_length"
+	case "copy(*v,data[2:int(length)+2])":
+		return "D_copy_from2"
+	case "*v=make([]byte,len(data))":
+		return "D_make_lendata"
+	case "copy(*v,data)":
+		return "D_copy_all"
+	case "varmultiplieruint=1":
+		return "D_var_mult1"
+	case "varvalueuint":
+		return "D_var_value"
+	case "value+=uint(encodedByte)&uint(127)*multiplier":
+		return "D_value_acc"
+	case "multiplier=multiplier*128":
+		return "D_mult_step"
+	case "*v=vbint(value)":
+		return "D_set_value"
+	case "varkeywstring":
+		return "D_var_key"
+	case "varvalwstring":
+		return "D_var_val"
+	case `iferr:=key.UnmarshalBinary(data);err!=nil{returnunmarshalErr(v,"key",err.(*Malformed))}`:
+		return "D_try_key"
+	case `iferr:=val.UnmarshalBinary(data[i:]);err!=nil{returnunmarshalErr(v,"value",err.(*Malformed))}`:
+		return "D_try_val"
+	case "v[0]=string(key)":
+		return "D_set_v0"
+	case "v[1]=string(val)":
+		return "D_set_v1"
+	case "i:=len(v[0])+2":
+		return "D_def_i"
+	}
+	switch x := s.(type) {
+	case *ast.IfStmt:
+		if x.Init == nil && x.Else == nil {
+			if c, ok := t.cond(x.Cond); ok {
+				return "D_if " + c + " " + t.block(x.Body.List)
+			}
+		}
+	case *ast.RangeStmt:
+		if x.Tok == token.DEFINE && t.sq(x.Key) == "_" && x.Value != nil && t.sq(x.Value) == "encodedByte" && t.sq(x.X) == "data" {
+			return "D_range_data " + t.block(x.Body.List)
+		}
+	case *ast.SwitchStmt:
+		if x.Init == nil && x.Tag != nil && t.sq(x.Tag) == "data[0]" {
+			var cases []string
+			def := ""
+			good := true
+			for _, cc := range x.Body.List {
+				cl := cc.(*ast.CaseClause)
+				if len(cl.List) == 0 {
+					def = t.block(cl.Body)
+					continue
+				}
+				if def != "" || len(cl.List) != 1 {
+					good = false // a default clause in the middle, or several values: not in the language
+					continue
+				}
+				c, ok := t.constVal(cl.List[0])
+				if !ok {
+					good = false
+					continue
+				}
+				cases = append(cases, "("+c+"%N, "+t.block(cl.Body)+")")
+			}
+			if good {
+				if def == "" {
+					def = "[]"
+				}
+				return "D_switch_data0 [" + strings.Join(cases, "; ") + "] " + def
+			}
+		}
+	}
+	return t.unknown(s)
+}
+
+func genWireDec(p *pkg, out string) {
+	info, _ := p.typecheck()
+	constVal := func(e ast.Expr) (string, bool) {
+		if tv, ok := info.Types[e]; ok && tv.Value != nil {
+			return tv.Value.ExactString(), true
+		}
+		return "", false
+	}
+	var keys []string
+	for k, fd := range p.funcs {
+		recv, name, _ := strings.Cut(k, ".")
+		if fd.Recv != nil && wireTypes[recv] && name == "UnmarshalBinary" {
+			keys = append(keys, k)
+		}
+	}
+	sort.Strings(keys)
+	var defs strings.Builder
+	defs.WriteString("(* generated by tools/gosync (wire.go) - do not edit *)\nFrom MQ Require Import Model.WireDecIR.\nFrom Coq Require Import List NArith String.\nImport ListNotations.\nLocal Open Scope string_scope.\n\n")
+	defs.WriteString("(* UnmarshalBinary of the wire types of wiretypes.go, statement by statement *)\nDefinition g_wire_dec_progs : list (string * list ds) :=\n  [")
+	for i, k := range keys {
+		fd := p.funcs[k]
+		recv, _, _ := strings.Cut(k, ".")
+		sig := squash(p.src(fd.Type))
+		if len(fd.Recv.List) == 1 && len(fd.Recv.List[0].Names) == 1 {
+			sig = "(" + fd.Recv.List[0].Names[0].Name + squash(p.src(fd.Recv.List[0].Type)) + ")" + sig
+		}
+		body := ""
+		if sig != "(v*"+recv+")func(data[]byte)error" || fd.Body == nil {
+			body = fmt.Sprintf("[D_unknown %q]", "signature "+sig)
+		} else {
+			t := &wireDecTr{p: p, recv: recv, constVal: constVal}
+			body = t.block(fd.Body.List)
+		}
+		if i > 0 {
+			defs.WriteString(";\n   ")
+		}
+		fmt.Fprintf(&defs, "(%q, %s)", k, body)
+	}
+	defs.WriteString("].\n")
+	os.WriteFile(filepath.Join(out, "GenWireDec.v"), []byte(defs.String()), 0o644)
+	lems := "(* generated by tools/gosync (wire.go) - do not edit *)\nFrom MQ Require Import Model.WireDecIR gen.GenWireDec.\nFrom Coq Require Import List String.\n\n" +
+		"(* UnmarshalBinary of the wire types is the statement lists the model runs\n   (Proofs/WireDecIRP.v: running them is dec_u8 ... dec_vb, dec_userprop of Model/Wire.v) *)\n" +
+		"Lemma sync_wire_dec_progs : g_wire_dec_progs = wire_dec_progs.\nProof. vm_compute. reflexivity. Qed.\n"
+	os.WriteFile(filepath.Join(out, "SyncWireDec.v"), []byte(lems), 0o644)
+}
